@@ -222,6 +222,7 @@ using all_shapes = tlist<
     shape<'P', 'N', 'P'>, shape<'V', 'P'>>;
 
 constexpr int NDEF = 16; // definition functions per method type
+constexpr int NDEF_BIG = 96; // ... of the big-pool methods (key 3)
 constexpr int MAXP = 6;  // parameters per signature
 
 template<char C, class Pol>
@@ -306,7 +307,7 @@ struct MethodDesc {
     int arity;
     bool has_static_offsets;
     detail::method_info* info; // == &Method::fn
-    void* defs[NDEF];          // what goes in definition_info::pf (real thunk)
+    std::vector<void*> defs;   // what goes in definition_info::pf (real thunk)
     // objs[i] for V/P positions, ints[i] for N positions, vps[i] (optional,
     // may be null) pre-built virtual_ptr<Obj,Pol>* for P positions.
     void* (*resolve)(Obj** objs, int* ints, void** vps);
@@ -446,7 +447,7 @@ struct Impl {
 
         template<int... Is>
         static void fill(MethodDesc& d, std::integer_sequence<int, Is...>) {
-            ((d.defs[Is] = thunk_of<Is>()), ...);
+            d.defs = {thunk_of<Is>()...};
         }
     };
 
@@ -458,7 +459,8 @@ struct Impl {
         d.key = Key;
         d.arity = int(M::arity);
         d.info = &M::fn;
-        Inv<M>::fill(d, std::make_integer_sequence<int, NDEF>());
+        Inv<M>::fill(
+            d, std::make_integer_sequence<int, Key == 3 ? NDEF_BIG : NDEF>());
         d.resolve = &Inv<M>::resolve;
         d.call = &Inv<M>::call;
         d.has_static_offsets = detail::has_static_offsets<M>::value;
@@ -476,6 +478,10 @@ struct Impl {
         if constexpr (NKeys > 2) {
             (..., pool.push_back(describe<Shapes, 2>()));
         }
+        // two methods with a pool of 96 definitions: more definitions than
+        // bits in a machine word
+        pool.push_back(describe<shape<'V', 'V'>, 3>());
+        pool.push_back(describe<shape<'V', 'V', 'V'>, 3>());
     }
 
     static inline int handler_mode = 0;
